@@ -65,6 +65,7 @@ pub fn run(ctx: &Ctx, case: &Case) -> Report {
                     steps,
                     matrix: None,
                     sweep: None,
+            timed: None,
                 };
                 let r = Interp::new(ctx, &sub).run();
                 rep.executions += 1;
